@@ -5,6 +5,8 @@ import re
 from ..model import AnalysisError
 from ..lib import (FV, decode_new, decode_call, phi_members, is_sym, is_const, is_str, strip_stores, stores_of, tuple_consts,
                    find_assign, find_assigns, simple_assigns, local_term, call_name, cond_equiv, cond_implies, path_term)
+from ..lib import (reached_iff, reached_implies, implies_reached, reached_iff_any, path_term, cond_equiv, cond_implies,  # noqa: F401
+                   else_stmts, branch_stmts, context_literals)
 from ..cfg import always_raises, walk_stmts
 from . import common as cm
 from . import geom
@@ -350,16 +352,19 @@ def d3_framing(chk, repo, v, r):
     chk.ob("io.ovf._from_ovf::version-from-first-line", bool(okv) and (decode_call(r.ctx, [x for x in r.ctx.args_of(roles["ovf_v2"][2])
                                                                                          if "next" in r.show(x)][0]) or ("",))[0] == "next"
            if okv else False, "C09.D3", "the OVF version is decided by '2.0' in the first line of the file", r.f)
-    # representation words: constants assigned under `representation == <key>`
+    # representation words: the constant assigned for each value of `representation` (decided over the finite set of
+    # representation names the function mentions, whatever the shape of the dispatch)
+    from ..lib import values_reaching, _OTHER
     words = {}
+    rep = v.ev._sym("param:representation")
     for st in v.stmts():
         if isinstance(st, ast.Assign) and isinstance(st.targets[0], ast.Name) and isinstance(st.value, ast.Constant) and \
-                isinstance(st.value.value, str):
-            for c_, pol in v.cfg.path_condition(st):
-                if pol and isinstance(c_, ast.Compare) and len(c_.ops) == 1 and isinstance(c_.ops[0], ast.Eq) and \
-                        ast.unparse(c_.left) == "representation" and isinstance(c_.comparators[0], ast.Constant):
-                    words[c_.comparators[0].value] = st.value.value
-    okw = words == {"bin4": "Binary 4", "bin8": "Binary 8", "txt": "Text"}
+                isinstance(st.value.value, str) and st.value.value.split()[0] in ("Binary", "Text", "binary", "text"):
+            vals = values_reaching(v, st, rep)
+            for k_ in (vals or {None}):
+                words.setdefault(k_, set()).add(st.value.value)
+    okw = words == {"bin4": {"Binary 4"}, "bin8": {"Binary 8"}, "txt": {"Text"}}
+    words = {k_: sorted(x) for k_, x in words.items()}
     chk.ob("io.ovf._to_ovf::representation-words", okw, "C09.D3",
            f"representation words {words}; OVF: 'Binary 4', 'Binary 8', 'Text' (the reader takes token 3 as mode and the last token "
            "as byte count)", v.f)
@@ -579,32 +584,40 @@ def d8_dispatch(chk, repo):
     w = FV(repo, "io._FieldIO.to_file", self_type=FIELD)
     r = FV(repo, "io._FieldIO.from_file", self_type=FIELD)
 
-    def suffix_lists(v):
+    from ..lib import reach_values, subject_constants, _OTHER
+
+    def suffix_sets(v, names):
+        """format call -> set of extensions under which it is reached (decided over the finitely many extension strings the
+        suffix is compared with, plus one other value); also the set of values that end in ValueError"""
+        subject = v.spec("pathlib.Path(filename).suffix")
+        sites = {}
+        for call, st in v.calls():
+            if isinstance(call.func, ast.Attribute) and call.func.attr in names:
+                sites[call.func.attr] = st
+        conds = []
+        for st in list(sites.values()) + [x for x, n in v.raises()]:
+            conds += [path_term(v, st)] + context_literals(v, st)
+        cands = sorted(subject_constants(v.ctx, conds, subject))
         out = {}
-        for st in v.stmts():
-            if isinstance(st, ast.If):
-                c = st.test
-                if isinstance(c, ast.Compare) and ast.unparse(c.left) == "filename.suffix":
-                    try:
-                        val = ast.literal_eval(c.comparators[0])
-                    except Exception:
-                        continue
-                    vals = [val] if isinstance(val, str) else list(val)
-                    callee = None
-                    for n in ast.walk(ast.Module(body=st.body, type_ignores=[])):
-                        if isinstance(n, ast.Call) and isinstance(n.func, ast.Attribute) and n.func.attr.startswith(("_to_", "_from_")):
-                            callee = n.func.attr
-                    out[callee] = vals
-        return out
-    ws, rs = suffix_lists(w), suffix_lists(r)
+        for name, st in sites.items():
+            rv = reach_values(v, st, subject, cands)
+            out[name] = None if any(x is None for x in rv.values()) else {c for c, x in rv.items() if x}
+        refused = set()
+        for x, n in v.raises():
+            if n == "ValueError":
+                rv = reach_values(v, x, subject, cands)
+                refused |= {c for c, b in rv.items() if b}
+        return out, refused, cands
+    ws, wref, wc = suffix_sets(w, ("_to_ovf", "_to_vtk", "_to_hdf5"))
+    rs, rref, rc = suffix_sets(r, ("_from_ovf", "_from_vtk", "_from_hdf5"))
     pairs = {"_to_ovf": "_from_ovf", "_to_vtk": "_from_vtk", "_to_hdf5": "_from_hdf5"}
     for a, b in pairs.items():
-        ok = a in ws and b in rs and set(ws[a]) <= set(rs[b])
+        ok = bool(ws.get(a)) and bool(rs.get(b)) and ws[a] <= rs[b] and _OTHER not in ws[a]
         chk.ob(f"io._FieldIO::dispatch::{a[4:]}", ok, "C09.D8",
-               f"to_file writes {ws.get(a)} via {a}; from_file reads {rs.get(b)} via {b}", w.f)
-    for q in (w, r):
-        has_else = any(n == "ValueError" for x, n in q.raises())
-        chk.ob(f"{q.f.qual}::unknown-extension-refused", has_else, "C09.D8", "unknown extensions must raise ValueError", q.f)
+               f"to_file writes {sorted(ws[a]) if ws.get(a) else ws.get(a)} via {a}; from_file reads "
+               f"{sorted(rs[b]) if rs.get(b) else rs.get(b)} via {b}", w.f)
+    for q, ref in ((w, wref), (r, rref)):
+        chk.ob(f"{q.f.qual}::unknown-extension-refused", _OTHER in ref, "C09.D8", "unknown extensions must raise ValueError", q.f)
     # forwarding of the writer's options
     for call, st in w.calls():
         if isinstance(call.func, ast.Attribute) and call.func.attr == "_to_ovf":
@@ -809,31 +822,36 @@ def d9_details(chk, repo, v, r):
                f"the unit is taken from the file under {r.show(path_term(r, takes[0]))[:200] if takes else '?'}; expected: the unit "
                "list is non-empty and all its entries agree (then its first entry)", r.f, takes[0] if takes else None)
     chk.ob("io.ovf._from_ovf::unit-list-found", ul is not None, "C09.D9", "header['valueunits'].split() not found", r.f)
-    # ---- dispatch: each extension set selects its own format
+    # ---- dispatch: each extension set selects its own format (decided over the finite set of extension strings)
+    from ..lib import reach_values, subject_constants, _OTHER
+    own_ext = {"ovf": {".omf", ".ovf", ".ohf"}, "vtk": {".vtk"}, "hdf5": {".hdf5", ".h5"}}
     for q, calls in (("io._FieldIO.to_file", ("_to_ovf", "_to_vtk", "_to_hdf5")),
                      ("io._FieldIO.from_file", ("_from_ovf", "_from_vtk", "_from_hdf5"))):
         d = FV(repo, q)
+        subject = d.spec("pathlib.Path(filename).suffix")
         sites = {}
         for call, st in d.calls():
             if isinstance(call.func, ast.Attribute) and call.func.attr in calls:
                 sites[call.func.attr] = st
         chk.require(len(sites) == 3, f"{q}: the three format calls were not found")
-        tests = {}
+        conds = []
+        for st in sites.values():
+            conds += [path_term(d, st)] + context_literals(d, st)
+        cands = sorted(subject_constants(d.ctx, conds, subject))
+        got = {}
         for name, st in sites.items():
-            par = d.cfg.parent.get(id(st))
-            if par and isinstance(par[0], ast.If) and par[1] == "body":
-                tests[name] = d.ev.term(par[0].test, at=par[0])
+            rv = reach_values(d, st, subject, cands)
+            got[name] = None if any(x is None for x in rv.values()) else {c for c, x in rv.items() if x}
         for name, st in sites.items():
-            own = tests.get(name)
-            pt = path_term(d, st)
-            hd = d.ctx.head_of(own) if own is not None else None
-            pos = bool(hd and hd[0] == "cmp" and hd[1] in ("in", "eq"))
-            others = [d.ev._not(t_) for n_, t_ in tests.items() if n_ != name]
-            oks = own is not None and pos and cond_implies(d, pt, own) and \
-                cond_implies(d, d.ev._bool("and", [own] + others), pt)
+            fmt = name.split("_")[-1]
+            mine = got[name]
+            oks = mine is not None and own_ext[fmt] <= mine and _OTHER not in mine and \
+                not any(mine & own_ext[f2] for f2 in own_ext if f2 != fmt)
+            if q.endswith("to_file"):
+                oks = oks and mine == own_ext[fmt]
             chk.ob(f"{q}::{name}::selected-by-its-extensions", oks, "C09.D9",
-                   f"{name} runs under {d.show(pt)[:160]}; it must run for the extensions of its own format (a membership or "
-                   "equality test of the suffix) and for no others", d.f, st)
+                   f"{name} runs for the extensions {sorted(mine) if mine is not None else 'undecided'}; it must run for the "
+                   f"extensions of its own format {sorted(own_ext[fmt])} and for none of another format", d.f, st)
     d9_sidecar(chk, repo)
 
 
